@@ -47,6 +47,34 @@ CHECKS['C16'] = (
     'mtscomp creates the compressed inputs and is trusted; lengths beyond the bounds are not covered.',
     'DESIGN.md section 6 C16')
 
+CHECKS['C01'] = (
+    'exhaustive enumeration of recording layouts x index expressions (space mode) on real readers over '
+    'real files, differential against NumPy indexing of the ground-truth array',
+    'Bounded exhaustive exploration: every composition of n <= 6 (8) samples into flat files x dtypes x '
+    'channel counts x header offsets, plus npy / in-memory / compressed (.cbin by path and by reader) '
+    'layouts; on each, every integer in [-n, n) in three integer types, every unit-step slice with '
+    'bounds in [-n, n] or None selecting >= 1 row, every strictly increasing index list in three '
+    'container types, each alone and with 7 column selectors given eagerly and lazily (about 2.1e6 '
+    'index expressions in the quick tier) compared in value, shape and dtype. The suite pins a dozen '
+    'expressions on one two-file layout; the defect found (array rows + column selector) is outside it.',
+    'NumPy indexing of the generator\'s array is the reference; lengths above the bound and '
+    'multi-file npy/cbin (documented as unsupported) are not covered.',
+    'DESIGN.md section 6 C01')
+CHECKS['C02'] = (
+    'explicit-state exploration over programs and derivation trees (bfs mode): all operator strings to '
+    'a depth bound and all parent/child/sibling derivation histories, every live reader re-read after '
+    'every event and compared with the eager NumPy expression',
+    'Bounded exhaustive exploration: every program of depth <= 2 (3 thorough) over the 53-operation '
+    'alphabet (2 unary, 12 binary x 4 scalars, 3 column selections) on 16 roots (flat in two files, '
+    'array, npy, cbin x int16/float32/float64/uint8), each indexed 14 ways; and every derivation tree '
+    'with <= 3 (4) derivations over 9 operations where after each derivation every live node (root, '
+    'parent, siblings, new node) is re-read against its own eager expression, so shared deferred-op '
+    'state is seen at the step where it appears. States are deduplicated by (multiset of expressions, '
+    'aliasing pattern of the op lists).',
+    'Float results compared to 4 ULP (NumPy SIMD vs scalar loops), dtype/NaN/inf exactly; no claim '
+    'where the eager expression on the whole array raises; Python scalars only.',
+    'DESIGN.md section 6 C02')
+
 NOT_YET = {}
 
 ALL = ['C%02d' % i for i in range(1, 21)]
